@@ -216,6 +216,11 @@ func (engine *Engine) TakeSnapshot() error {
 	}
 
 	verifPoint("manifest-read", engine.directory)
+	// The changes counted so far are the ones the state copied below contains: only those are discounted when the
+	// snapshot has been published. Changes made while the snapshot is being written are not in it and keep counting
+	// towards the next one.
+	changes := engine.changeCount.Load()
+
 	// Get current state
 	snapshotObject := internal.SnapshotObject{
 		State:                      internal.FilterExpiredKeys(engine.clock.Now(), engine.getStateFunc()),
@@ -281,8 +286,8 @@ func (engine *Engine) TakeSnapshot() error {
 	engine.setLatestSnapshotTimeFunc(msec)
 
 	verifPoint("latest-set", engine.directory)
-	// Reset the change count
-	engine.resetChangeCount()
+	// Discount the changes this snapshot contains
+	engine.discountChanges(changes)
 
 	return nil
 }
@@ -390,6 +395,7 @@ func (engine *Engine) IncrementChangeCount() {
 	engine.changeCount.Add(1)
 }
 
-func (engine *Engine) resetChangeCount() {
-	engine.changeCount.Store(0)
+func (engine *Engine) discountChanges(n uint64) {
+	// unsigned wrap-around: adding -n subtracts n
+	engine.changeCount.Add(-n)
 }
